@@ -211,6 +211,10 @@ func judge(c *Case) *evid.Failure {
 		return withSrc(fail("harness", "declarations failed: %v %s", declErr, p))
 	}
 	obs := r.entry()
+	if st := goja.VerifVMState(r.vm); st.NativeDepth != 0 {
+		// bookkeeping of Go-level nesting must be back at zero whichever way the chain ended
+		return withSrc(fail("idle:nativeDepth", "after the chain returned to the host the runtime still counts %d nested native calls", st.NativeDepth))
+	}
 	if r.bad != "" {
 		return withSrc(fail("harness", "%s", r.bad))
 	}
